@@ -181,6 +181,27 @@ fn confirm_hang(case: &StrCase, input: &str, ctx: &mut Ctx) -> Option<String> {
     }
 }
 
+/// huge lower bounds over terms that match the empty string at some positions only (they cannot be simplified
+/// away at compile time): a correct engine does not iterate that many times over an empty match
+pub fn huge_min_part() -> BoxedStrategy<StrCase> {
+    let body = prop::sample::select(vec!["(?:b|^)", "(?:^|b)", "(?:$|a)", "(?:a|$)", "(?:a|\\1)", "(?:\\1|a)", "(?:^$|a)", "(b|^)", "(?:a|(?:^|$))", "(?:ab|^|c)"]);
+    let n = prop::sample::select(vec!["1000", "65536", "2147483648", "4294967296", "9223372036854775807", "18446744073709551615"]);
+    (body, n, 0u8..4, prop::sample::select(vec!["", "a", "b", "c"]), gen::flags_strategy("ms"), gen::raw_inputs(4, 6))
+        .prop_map(|(b, n, form, tail, flags, raw)| {
+            let q = match form {
+                0 => format!("{{{n}}}"),
+                1 => format!("{{{n},}}"),
+                2 => format!("{{{n}}}?"),
+                _ => format!("{{{n},}}?"),
+            };
+            let pattern = format!("(a?){b}{q}{tail}");
+            let alpha = ['a', 'b', 'c', '\n', 'a', 'b'];
+            let inputs = raw.iter().map(|r| gen::materialize_input(r, &alpha)).collect();
+            StrCase { dialect: Dialect::XPath, pattern, flags, inputs, replacements: vec!["[$0]".into()], tag: "huge-minimum".into() }
+        })
+        .boxed()
+}
+
 pub fn check_termination(case: &StrCase, ctx: &mut Ctx) -> Verdict {
     let fail = |actual: String| {
         Verdict::Fail(Failure { sub: "termination".into(), expected: "every call returns; tokenize <= len+1 items, analyze <= 2*len+1, then None forever".into(), actual, detail: format!("{}", case.describe()) })
@@ -248,6 +269,7 @@ impl Prop for C06 {
             Part { name: "dangerous-ast".into(), strategy: dangerous_part("dangerous-ast", Dialect::XPath), cases: tier.pick(250_000, 5_000_000) },
             Part { name: "quantifier-shapes".into(), strategy: shapes_part(), cases: tier.pick(250_000, 5_000_000) },
             Part { name: "dangerous-ast-xsd".into(), strategy: dangerous_part("dangerous-ast-xsd", Dialect::Xsd), cases: tier.pick(50_000, 500_000) },
+            Part { name: "huge-minimum".into(), strategy: huge_min_part(), cases: tier.pick(20_000, 200_000) },
         ]
     }
     fn extra(&self, ctx: &mut Ctx) -> Vec<(String, Verdict, Option<StrCase>)> {
